@@ -41,8 +41,17 @@ Ops == {"MultidirectionalBroadcast", "UnidirectionalBroadcast"}
 Init == \/ st \in [op : Ops, dt : {"f32"}, a : Shapes, b : Shapes, done : {FALSE}]
         \/ (DTypeSweep /\ st \in [op : Ops, dt : AllDTypes \ {"f32", "bool"}, a : SweepShapes, b : SweepShapes, done : {FALSE}])
 
+\* the two operands need not have the same element type: each result keeps the type of its own source
+MixedCase(op, dta, dtb, a, b) ==
+   LET A == Iota(dta, a, 0) B == Iota(dtb, b, 100)
+   IN [prop |-> "C14", fam |-> "bcast", kind |-> "helper", op |-> op, attrs |-> <<>>, inputs |-> <<A, B>>, nout |-> 2,
+       allowed |-> IF op = "MultidirectionalBroadcast" THEN Multi(A, B) ELSE Uni(A, B),
+       cmp |-> "bits", keep |-> TRUE, feat |-> Feat(a, b) \o <<"mixed_types">>, known |-> <<>>]
+MixedPairs == {<<"f32", "i64">>, <<"i64", "f32">>, <<"f64", "u8">>, <<"i32", "f64">>}
 Emit == /\ ~st.done
         /\ PrintT(<<"CASE", ToJson(CaseOf(st.op, st.dt, st.a, st.b))>>)
+        /\ (st.dt = "f32" /\ Len(st.a) <= 2 /\ Len(st.b) <= 2 =>
+              \A p \in MixedPairs : PrintT(<<"CASE", ToJson(MixedCase(st.op, p[1], p[2], st.a, st.b))>>))
         /\ st' = [st EXCEPT !.done = TRUE]
 
 Next == Emit
